@@ -102,6 +102,72 @@ def run_seeded(prop, rule_names, scratch, repo='/repo'):
     return summary, broken
 
 
+def run_refactors(prop, rule_names, scratch, repo='/repo'):
+    """Negative regression: with any of the behaviour-preserving refactorings under refactor/ applied to a
+    scratch copy, the property's rules report no violation and lose no floor/anchor."""
+    import subprocess
+    import re
+    import vcheck
+    import rules as R
+    summary = {'patches': 0, 'applied': 0, 'silent': 0, 'skipped': [], 'alarmed': []}
+    broken = []
+    rdir = os.path.join(HERE, 'refactor')
+    if not os.path.isdir(rdir):
+        return summary, broken
+    known = vcheck.load_known()
+    for pid in sorted(os.listdir(rdir)):
+        pf = os.path.join(rdir, pid, 'patch.diff')
+        if not os.path.exists(pf):
+            continue
+        summary['patches'] += 1
+        root = os.path.join(scratch, 'refac-' + pid, 'repo')
+        copy_tree(repo, root)
+        r = subprocess.run(['patch', '-p1', '-s', '-d', root, '-i', pf], stdout=subprocess.PIPE, stderr=subprocess.STDOUT, text=True)
+        if r.returncode != 0:
+            summary['skipped'].append(pid + ' (patch does not apply)')
+            shutil.rmtree(os.path.join(scratch, 'refac-' + pid), ignore_errors=True)
+            continue
+        summary['applied'] += 1
+        sub = os.path.join(scratch, 'refac-' + pid, 'work')
+        os.makedirs(sub)
+        try:
+            records, _ = vcheck.run_rules(root, rule_names, 'quick', sub)
+        except vcheck.Broken as ex:
+            broken.append('refactoring %s does not analyse: %s' % (pid, str(ex)[:200]))
+            continue
+        sites = vcheck.merge(records)
+        bad = []
+        resolved = {}
+        anchors = {}
+        for rec in sites:
+            if rec['kind'] in ('ok', 'violation'):
+                resolved[rec['rule']] = resolved.get(rec['rule'], 0) + 1
+            if rec['kind'] == 'anchor':
+                anchors.setdefault(rec['rule'], set()).add(rec['construct'])
+            if rec['kind'] != 'violation':
+                continue
+            flt = R.FILTER.get((prop, rec['rule']))
+            if flt and not re.search(flt, rec['file']):
+                continue
+            if vcheck.match_known(rec, prop, known):
+                continue
+            bad.append('%s %s:%d %s' % (rec['rule'], rec['file'], rec['line'], rec['construct'][:60]))
+        for rn in rule_names:
+            mod = R.get(rn)
+            if resolved.get(rn, 0) < getattr(mod, 'FLOOR', 1):
+                bad.append('%s floor (%d < %d)' % (rn, resolved.get(rn, 0), getattr(mod, 'FLOOR', 1)))
+            for a in getattr(mod, 'ANCHORS', []):
+                if a not in anchors.get(rn, set()):
+                    bad.append('%s anchor %s lost' % (rn, a))
+        if bad:
+            summary['alarmed'].append({pid: bad[:4]})
+            broken.append('false alarm on the behaviour-preserving refactoring %s: %s' % (pid, '; '.join(bad[:3])))
+        else:
+            summary['silent'] += 1
+        shutil.rmtree(os.path.join(scratch, 'refac-' + pid), ignore_errors=True)
+    return summary, broken
+
+
 def run(rule_names, scratch, repo='/repo'):
     import vcheck
     edits = load_edits(rule_names)
